@@ -740,7 +740,10 @@ func runSig(c *core.Ctx) error {
 			if verr == nil && vfy2([]byte(withNs)) != nil {
 				cu.Err = "relic rejects the document with an unused declaration"
 			}
-			se.C14n = append(se.C14n, ci, co, cu)
+			// caller-supplied Object content under the declared (inclusive) algorithm
+			cb := runOne(0, "recdoc+body:object", string(blob), pathOf(root2, "Object"))
+			cb.Inc = true
+			se.C14n = append(se.C14n, ci, co, cu, cb)
 			c.Emit(se)
 
 			// ---------------- the real VSIX package signature (signers/vsix makeSignature through the verif hook)
